@@ -15,8 +15,22 @@ PROPERTIES = ["C01", "C03", "C05", "C06", "C08", "C09", "C10", "C11", "C20"]
 
 
 # ----------------------------------------------------------------------------- clause ownership
+def owners(op, clause):
+    """every property a failing clause belongs to: the primary owner plus the properties whose statement the same
+    observation contradicts as well (a copy that does not decode to the source's value breaks C09 AND the format C05;
+    an assignment that writes into another object breaks C03's frame AND C10's locality AND, for references, C08)"""
+    o = {owner(op, clause)}
+    if clause.startswith("copy-decode:") or clause.startswith("copy-fmt") or (op == "copy" and clause.startswith("fmt:")):
+        o |= {"C05", "C09"}
+    if op == "set" and clause.startswith("frame:set-wrote-outside-object"):
+        o |= {"C03", "C10"}
+    if op == "set" and clause.startswith("set:other-object-changed"):
+        o |= {"C10", "C03"}
+    return o
+
+
 def owner(op, clause):
-    """which property a failing clause of XoHeapTrace belongs to, given the operation it failed at"""
+    """which property a failing clause of XoHeapTrace primarily belongs to, given the operation it failed at"""
     if clause.startswith("pickle:") or op == "pickle":
         return "C20"
     if clause.startswith("alloc:"):
@@ -112,6 +126,9 @@ SUITE = [
     X.struct(I8, X.struct(X.ref(X.arr(F64, [-1])), X.STR), X.STR),
     X.arr(X.struct(X.ref(X.arr(F64, [-1])), X.STR, X.arr(I8, [-1])), [-1]),
     X.struct(X.ref(X.struct(X.ref(X.arr(I16, [-1])), X.STR)), X.STR, I64),
+    X.struct(I8, X.ref(X.arr(F64, [3])), X.ref(X.struct(F64, I16)), X.ref(X.arr(F64, [3]))),          # references to statically sized targets
+    X.arr(X.ref(X.struct(I64, F64)), [-1]),
+    X.struct(X.arr(X.ref(X.arr(I16, [2, 2])), [3]), X.STR),
 ]
 
 
@@ -203,9 +220,15 @@ def prog_copy(w, rng):
         keys.append(k)
     for _ in range(rng.randint(1, 3)):
         src = rng.choice(list(w.handles))
+        w.last_copied_part = None
         nk = w.copy(src, rng.randrange(len(w.bufs)))
         if nk is None:
             return
+        if w.last_copied_part is not None and rng.random() < 0.6:
+            # the part the copy was made from is then assigned a new value of fitting size as a whole
+            pk, accp = w.last_copied_part
+            if w.set(pk, target=accp, no_from=rng.random() < 0.7) is False and w.steps[-1].get("exc"):
+                return
         for _ in range(rng.randint(0, 3)):
             if w.set(rng.choice([src, nk]), allow=("null", "alias", "new")) is False and w.steps[-1].get("exc"):
                 return
@@ -316,16 +339,53 @@ def prog_pickle(w, rng):
             w.grow(rng.choice(twins)[0])
 
 
+_TABLES = [X.struct(I64, X.arr(X.arr(F64, [-1]), [-1])), X.struct(X.arr(X.STR, [-1]), I8),
+           X.arr(X.arr(X.arr(I16, [-1]), [-1]), [2]), X.struct(I8, X.arr(X.struct(I8, X.STR), [-1, 2], [1, 0])),
+           X.arr(X.struct(X.arr(X.STR, [-1]), F64), [-1])]
+
+
+def prog_view_copy(w, rng):
+    """C06 / C09: a handle obtained by copy-constructing from a VIEW (a nested part handed out by the library) must behave like
+    any other handle while the part it was copied from is later assigned new values of fitting size (item sizes redistributed)"""
+    tx = rng.choice(_TABLES) if rng.random() < 0.7 else pick_type(rng, False)
+    k = w.new(tx, rng.randrange(2), mindim=2)
+    if k is None:
+        return
+    for _ in range(rng.randint(1, 2)):
+        w.last_copied_part = None
+        nk = None
+        for _try in range(6):
+            nk = w.copy(k, rng.randrange(len(w.bufs)))
+            if nk is None:
+                return
+            if w.last_copied_part is not None:
+                break
+        if w.last_copied_part is None:
+            return
+        pk, accp = w.last_copied_part
+        for _ in range(rng.randint(1, 3)):
+            x = rng.random()
+            if x < 0.6:
+                ok = w.set(pk, target=accp, no_from=rng.random() < 0.8)
+            elif x < 0.8:
+                ok = w.set(nk)
+            else:
+                w.grow(rng.choice([pk[0], nk[0]]))
+                ok = True
+            if ok is False and w.steps[-1].get("exc"):
+                return
+
+
 PROGRAMS = {
     "C01": lambda w, rng: prog_construct(w, rng),
-    "C05": lambda w, rng: prog_construct(w, rng),
+    "C05": lambda w, rng: (prog_construct if rng.random() < 0.6 else prog_copy)(w, rng),      # copy-construction writes objects too
     "C03": lambda w, rng: (prog_construct if rng.random() < 0.4 else prog_set)(w, rng),
-    "C06": lambda w, rng: (prog_construct if rng.random() < 0.3 else prog_set)(w, rng),
+    "C06": lambda w, rng: (prog_construct if rng.random() < 0.2 else (prog_view_copy if rng.random() < 0.25 else (prog_set if rng.random() < 0.6 else prog_copy)))(w, rng),
     "C10": lambda w, rng: prog_set(w, rng),
     "C08": prog_refs,
     "C11": prog_err,
     "C20": prog_pickle,
-    "C09": prog_copy,
+    "C09": lambda w, rng: (prog_view_copy if rng.random() < 0.15 else prog_copy)(w, rng),
 }
 COUNTS = {"quick": 500, "thorough": 8000}
 
@@ -507,9 +567,9 @@ def check(pid, argv=None):
         if pos == 0:
             continue
         e = h["steps"][pos - 1]
-        mine = [c for c in clauses if owner(e["op"], c) == pid]
+        mine = [c for c in clauses if pid in owners(e["op"], c)]
         for c in clauses:
-            if owner(e["op"], c) != pid:
+            if pid not in owners(e["op"], c):
                 abandoned[owner(e["op"], c) + ":" + c] += 1
         if mine:
             sub = step_subject(h, e)
